@@ -123,9 +123,20 @@ def gen(rng, tier, i):
     mapping = rng.choice(MAPPINGS + [None])
     ep = rng.choice(['engine.io', 'engine.io', '/engine.io/', 'eio',
                      '/eio'])
+    paths = [gen_path(rng) for _ in range(rng.randint(2, 8))]
+    if mapping and rng.random() < 0.5:
+        # multi-step sequences under one mapping: the bare key first, then
+        # files beneath it
+        key = rng.choice([k for k in mapping if k] or ['/static'])
+        base = key.rstrip('/')
+        seq = [key, base, base + '/'] + [base + '/' + f for f in (
+            'app.js', 'index.html', 'css/site.css', 'data.bin', 'noext',
+            'sub/', 'sub/alt.html')]
+        seq = [x for x in seq if x.startswith('/')]
+        paths += [rng.choice(seq) for _ in range(rng.randint(2, 5))]
     plan = {'server': impl, 'static_files': mapping, 'engineio_path': ep,
             'with_other_app': rng.random() < 0.5,
-            'paths': [gen_path(rng) for _ in range(rng.randint(2, 8))],
+            'paths': paths,
             'lifespan': None}
     if impl == 'asyncio':
         if rng.random() < 0.1:
@@ -175,7 +186,9 @@ def run(plan, sched_values=None, sched_seed=0):
     mapping = _subst(plan.get('static_files'), root)
     mw = {'with_other_app': plan.get('with_other_app', False)}
     if mapping is not None:
-        mw['static_files'] = mapping
+        # the application gets its own copy: the oracle's reference mapping
+        # must not see anything the code under test writes into it
+        mw['static_files'] = _subst(plan.get('static_files'), root)
     if plan['server'] == 'asyncio' or plan.get('engineio_path') is not None:
         mw['engineio_path'] = plan.get('engineio_path')
     ls = plan.get('lifespan')
